@@ -540,7 +540,7 @@ def standard_check(mod, tier, seed):
                 lines_i = lines[i]
         else:
             lines_i = lines[i]
-        found = not hasattr(mod, "oracle_lines") and getattr(mod, "MODEL_IS_SPEC", False)
+        found = getattr(mod, "MODEL_IS_SPEC", False)
         # a panic / crash / hang of the implementation where the proved model returns normally is itself
         # a concrete failing input (every property requires a normal return on its domain)
         crashed = [j for j in unexplained if (impl_out[j] or "").startswith(("PANIC", "CRASH", "BOTHNIL", "BOTHSET"))
